@@ -253,7 +253,15 @@ fn async_stream() -> RunResult {
         (0..3).filter(|i| mask & (1 << i) != 0).collect()
     };
     let flushes = sim::range("flusher", 0, 3);
-    sim::log(|| format!("AsyncStream(base {base}, max {max}); inbound {} bytes {fr:?}; outbound {} bytes in {} chunks {fw:?}; reader entry points {readers:?}; {flushes} concurrent flushes", p_in.len(), all_out.len(), chunks.len()));
+    // one-poll visitors of an entry point (0..2 read side as above, 3 poll_flush)
+    let probers: Vec<usize> = (0..sim::choose("probers", 3)).map(|_| sim::choose("prober.ep", 4)).collect();
+    // (the last task to poll an entry point is the one it wakes: the lasting tasks of an entry point start
+    // after its visitors have been and gone)
+    let visitors_left: Rc<RefCell<[usize; 4]>> = Rc::new(RefCell::new([0; 4]));
+    for ep in &probers {
+        visitors_left.borrow_mut()[*ep] += 1;
+    }
+    sim::log(|| format!("AsyncStream(base {base}, max {max}); inbound {} bytes {fr:?}; outbound {} bytes in {} chunks {fw:?}; reader entry points {readers:?}, one-poll visitors {probers:?}; {flushes} concurrent flushes", p_in.len(), all_out.len(), chunks.len()));
 
     let out: Rc<RefCell<Vec<u8>>> = Rc::default();
     let drained: Rc<RefCell<Vec<u8>>> = Rc::default();
@@ -308,49 +316,14 @@ fn async_stream() -> RunResult {
         let out = out.clone();
         let errors = errors.clone();
         let probe = probe.clone();
+        let visitors_left = visitors_left.clone();
         tasks.push(Box::pin(async move {
+            while visitors_left.borrow()[ep] > 0 {
+                yield_once().await;
+            }
             loop {
                 let k = 1 + sim::range("r.len", 0, 23) as usize;
-                let res: io::Result<usize> = poll_fn(|cx| {
-                    let mut s = stream.borrow_mut();
-                    match ep {
-                        0 => {
-                            let mut buf = vec![0u8; k];
-                            match s.as_mut().poll_read(cx, &mut buf) {
-                                Poll::Ready(Ok(n)) => {
-                                    out.borrow_mut().extend_from_slice(&buf[..n]);
-                                    Poll::Ready(Ok(n))
-                                }
-                                Poll::Ready(Err(e)) => Poll::Ready(Err(e)),
-                                Poll::Pending => Poll::Pending,
-                            }
-                        }
-                        1 => {
-                            let mut buf = vec![MaybeUninit::<u8>::uninit(); k];
-                            match s.as_mut().poll_read_uninit(cx, &mut buf) {
-                                Poll::Ready(Ok(n)) => {
-                                    out.borrow_mut().extend(buf[..n].iter().map(|b| unsafe { b.assume_init() }));
-                                    Poll::Ready(Ok(n))
-                                }
-                                Poll::Ready(Err(e)) => Poll::Ready(Err(e)),
-                                Poll::Pending => Poll::Pending,
-                            }
-                        }
-                        _ => match s.as_mut().poll_fill_buf(cx) {
-                            Poll::Ready(Ok(b)) => {
-                                let n = b.len().min(k);
-                                if b.len() > max {
-                                    errors.borrow_mut().push(format!("limit-exceeded|read buffer holds {} bytes, the limit is {max}", b.len()));
-                                }
-                                out.borrow_mut().extend_from_slice(&b[..n]);
-                                s.as_mut().consume(n);
-                                Poll::Ready(Ok(n))
-                            }
-                            Poll::Ready(Err(e)) => Poll::Ready(Err(e)),
-                            Poll::Pending => Poll::Pending,
-                        },
-                    }
-                })
+                let res: io::Result<usize> = poll_fn(|cx| poll_read_via(ep, k, cx, &stream, &out, &errors, max))
                 .await;
                 match res {
                     Ok(0) => break,
@@ -370,6 +343,34 @@ fn async_stream() -> RunResult {
                     yield_once().await;
                 }
             }
+        }));
+    }
+    // tasks that poll an entry point once, with a waker of their own, and walk away when it is pending: the
+    // task that polls the same entry point afterwards is the one that has to be woken
+    for ep in probers.iter().copied() {
+        let (stream, out, errors, visitors_left) = (stream.clone(), out.clone(), errors.clone(), visitors_left.clone());
+        tasks.push(Box::pin(async move {
+            for _ in 0..sim::range("prober.delay", 0, 3) {
+                yield_once().await;
+            }
+            let mut polled = false;
+            poll_fn(|cx| {
+                if polled {
+                    return Poll::Ready(());
+                }
+                polled = true;
+                match ep {
+                    3 => {
+                        let _ = stream.borrow_mut().as_mut().poll_flush(cx);
+                    }
+                    _ => {
+                        let _ = poll_read_via(ep, 1 + (ep * 7) % 5, cx, &stream, &out, &errors, max);
+                    }
+                }
+                Poll::Ready(())
+            })
+            .await;
+            visitors_left.borrow_mut()[ep] -= 1;
         }));
     }
     // writer: all chunks, then close
@@ -418,7 +419,11 @@ fn async_stream() -> RunResult {
         let stream = stream.clone();
         let errors = errors.clone();
         let probe = probe.clone();
+        let visitors_left = visitors_left.clone();
         tasks.push(Box::pin(async move {
+            while visitors_left.borrow()[3] > 0 {
+                yield_once().await;
+            }
             for _ in 0..flushes {
                 for _ in 0..sim::range("f.delay", 0, 4) {
                     yield_once().await;
@@ -448,6 +453,50 @@ fn async_stream() -> RunResult {
     check!(*drained == all_out, "lost-bytes", "bytes that reached the inner stream differ from what the adapter accepted: {}", first_diff(&drained, &all_out));
     check!(probe.tx.0.borrow().closed, "not-closed", "poll_close returned Ok but the inner stream was not shut down");
     Ok(())
+}
+
+
+/// One poll of the adapter's read side through entry point `ep` (0 poll_read, 1 poll_read_uninit, 2 poll_fill_buf
+/// + consume), asking for up to `k` bytes; what it yields is appended to `out`.
+fn poll_read_via(ep: usize, k: usize, cx: &mut std::task::Context<'_>, stream: &Shared, out: &Rc<RefCell<Vec<u8>>>, errors: &Rc<RefCell<Vec<String>>>, max: usize) -> Poll<io::Result<usize>> {
+    let mut s = stream.borrow_mut();
+    match ep {
+        0 => {
+            let mut buf = vec![0u8; k];
+            match s.as_mut().poll_read(cx, &mut buf) {
+                Poll::Ready(Ok(n)) => {
+                    out.borrow_mut().extend_from_slice(&buf[..n]);
+                    Poll::Ready(Ok(n))
+                }
+                Poll::Ready(Err(e)) => Poll::Ready(Err(e)),
+                Poll::Pending => Poll::Pending,
+            }
+        }
+        1 => {
+            let mut buf = vec![MaybeUninit::<u8>::uninit(); k];
+            match s.as_mut().poll_read_uninit(cx, &mut buf) {
+                Poll::Ready(Ok(n)) => {
+                    out.borrow_mut().extend(buf[..n].iter().map(|b| unsafe { b.assume_init() }));
+                    Poll::Ready(Ok(n))
+                }
+                Poll::Ready(Err(e)) => Poll::Ready(Err(e)),
+                Poll::Pending => Poll::Pending,
+            }
+        }
+        _ => match s.as_mut().poll_fill_buf(cx) {
+            Poll::Ready(Ok(b)) => {
+                let n = b.len().min(k);
+                if b.len() > max {
+                    errors.borrow_mut().push(format!("limit-exceeded|read buffer holds {} bytes, the limit is {max}", b.len()));
+                }
+                out.borrow_mut().extend_from_slice(&b[..n]);
+                s.as_mut().consume(n);
+                Poll::Ready(Ok(n))
+            }
+            Poll::Ready(Err(e)) => Poll::Ready(Err(e)),
+            Poll::Pending => Poll::Pending,
+        },
+    }
 }
 
 #[allow(dead_code)]
